@@ -229,7 +229,9 @@ class CircuitResult:
             self.num_qubits = len(qubits)
             for key, value in counts.items():
                 key = key.replace(" ", "")  # might contain spaces to separate registers
-                key = "".join(key[index] for index in qubits)
+                # keys are little-endian: qubit i is at position len(key)-1-i, and the
+                # extracted key is little-endian again (qubits[0] rightmost)
+                key = "".join(key[len(key) - 1 - index] for index in reversed(qubits))
                 self.results.append(BinaryResult(Bitstring(int(key, 2)), value))
 
     def __str__(self) -> str:
